@@ -430,6 +430,29 @@ func (sys *vfC04Sys) close() {
 	_ = sys.s.Shutdown(context.Background())
 }
 
+// reload replaces the registry by a new one that is given the model's clients
+// as its initial list (the way the configuration file is loaded), in the given
+// order.  A registry that holds no shared name or identifier must load.
+func (sys *vfC04Sys) reload(t *rapid.T, order []string) {
+	var initial []*Persistent
+	for _, n := range order {
+		initial = append(initial, sys.persistent(t, sys.m.clients[n]))
+	}
+	s, err := NewStorage(context.Background(), &StorageConfig{
+		Logger:         slogutil.NewDiscardLogger(),
+		Clock:          vfC04Clock{},
+		DHCP:           sys.dhcp,
+		InitialClients: initial,
+	})
+	if err != nil {
+		t.Fatalf("the registry's own content was rejected as initial client list (order %v): %v\nregistry:\n  %s",
+			order, err, strings.Join(sys.modelDump(), "\n  "))
+	}
+	sys.close()
+	sys.s = s
+	sys.checkDump(t, fmt.Sprintf("after reloading in order %v", order))
+}
+
 // nextUID returns a fresh deterministic UID.
 func (sys *vfC04Sys) nextUID() (uid UID) {
 	sys.uidSeq++
